@@ -193,6 +193,7 @@ type kfApp struct {
 	tp          *kfTransport
 	blockedArgs [][]string
 	onFollow    OnFollowBehavior
+	social      SocialWrappedCallbacks
 }
 
 func (a *kfApp) AuthenticateGetInbox(c context.Context, w http.ResponseWriter, r *http.Request) (context.Context, bool, error) {
@@ -244,7 +245,7 @@ func (a *kfApp) AuthenticatePostOutbox(c context.Context, w http.ResponseWriter,
 	return c, true, nil
 }
 func (a *kfApp) SocialCallbacks(c context.Context) (SocialWrappedCallbacks, []interface{}, error) {
-	return SocialWrappedCallbacks{}, nil, nil
+	return a.social, nil, nil
 }
 
 func kfSetup() (*kfApp, *sideEffectActor, FederatingActor) {
@@ -427,5 +428,22 @@ func TestKnownFinding_F4(t *testing.T) {
 	sea.AuthorizePostInbox(context.Background(), w, act2)
 	if n := len(app.blockedArgs); n == 2 && app.blockedArgs[1][0] == "<nil>" {
 		t.Errorf("F4 (C11 face) reproduced: Blocked was handed a nil IRI")
+	}
+}
+
+// F17 (C16): a Block whose application hook (SocialWrappedCallbacks.Block) returns one of the resolver's
+// "unmatched" errors was treated as "no callback ran": PostOutbox reported it deliverable.
+func TestKnownFinding_F17(t *testing.T) {
+	app, sea, _ := kfSetup()
+	app.social = SocialWrappedCallbacks{Block: func(c context.Context, b vocab.ActivityStreamsBlock) error {
+		return streams.ErrNoCallbackMatch
+	}}
+	blk := kfMustType(t, `{"@context":"https://www.w3.org/ns/activitystreams","type":"Block","id":"https://local.example/b/1","actor":"https://local.example/me","object":"https://p.example/troll","to":"https://p.example/troll"}`).(Activity)
+	deliverable, err := sea.PostOutbox(context.Background(), blk, kfURL("https://local.example/me/outbox"), nil)
+	if err != nil {
+		t.Fatal(err)
+	}
+	if deliverable {
+		t.Fatalf("a Block was reported deliverable by PostOutbox (it would be sent to the blocked actor)")
 	}
 }
